@@ -433,5 +433,8 @@ PROPS["C20"]["explanation"] += " (ENDSUM) every INT32_MAX guard of Hwrite contai
 PROPS["C04"]["rules"] = PROPS["C04"]["rules"] + [rules_cache.rule_fill_covers_chunk]
 PROPS["C04"]["explanation"] += " (FILLCOVER) the fill of a never-written chunk's cache page is computed from the chunk's element count and element size, so it covers the whole page."
 
+PROPS["C13"]["rules"] = PROPS["C13"]["rules"] + [rules_handles.rule_release_removes_key]
+PROPS["C13"]["explanation"] += " (RELKEY) a public routine that releases the identifier it is given removes it from the atom table on every non-failing path, also when other users of a shared object remain."
+
 NOT_APPLICABLE = {}
 
